@@ -416,7 +416,7 @@ type vfResult struct {
 
 type vfStats struct {
 	scripts, steps, iterReads, storeReads, ackChecks, slowCommits, peerCommits, failedOpens, partialFrames,
-	dataOnly, freeFrames, remoteOnly, mixedWrites, lastEndNotMax, commits, unauthorized, hangs, settles, traces, tainted, setupRetries atomic.Int64
+	dataOnly, freeFrames, remoteOnly, mixedWrites, lastEndNotMax, commits, unauthorized, hangs, settles, traces, tainted, setupRetries, setBounds atomic.Int64
 }
 
 var vfDebug = os.Getenv("VERIF_DEBUG") == "1"
@@ -649,12 +649,22 @@ func vfFlatten(fr frame.Frame, key channel.Key, sorted bool) [][]byte {
 func (r *vfRunner) iterRead(g int, chs []string, lo, hi telem.TimeStamp, mode int) (frame.Frame, error, bool) {
 	ctx := context.Background()
 	return vfCall(vfWatchdog, func() (frame.Frame, error) {
-		it, err := r.cl.nodes[g].Framer.OpenIterator(ctx, iterator.Config{Keys: r.realKeys(chs), Bounds: telem.TimeRange{Start: lo, End: hi}})
+		// modes 2 / 3: the iterator is opened unbounded and the range is set afterwards with
+		// SetBounds on the OPEN iterator (a command broadcast like the seeks), then traversed
+		bounds := telem.TimeRange{Start: lo, End: hi}
+		if mode >= 2 {
+			bounds = telem.TimeRangeMax
+		}
+		it, err := r.cl.nodes[g].Framer.OpenIterator(ctx, iterator.Config{Keys: r.realKeys(chs), Bounds: bounds})
 		if err != nil {
 			return frame.Frame{}, err
 		}
+		if mode >= 2 {
+			it.SetBounds(telem.TimeRange{Start: lo, End: hi})
+			r.stats.setBounds.Add(1)
+		}
 		var fr frame.Frame
-		if mode == 0 {
+		if mode%2 == 0 {
 			it.SeekFirst()
 			for k := 0; k < 2; k++ {
 				it.Next(telem.TimeSpanMax)
@@ -713,7 +723,7 @@ func (r *vfRunner) compareIter(cm map[string]map[string]int, g int, chs []string
 	}
 	for _, ch := range chs {
 		exp := r.expected(cm, ch, a, b)
-		act := vfFlatten(fr, r.keys[ch], mode == 1)
+		act := vfFlatten(fr, r.keys[ch], mode%2 == 1)
 		if !vfEqual(exp, act) {
 			kind := "differs"
 			if len(act) < len(exp) {
@@ -723,7 +733,7 @@ func (r *vfRunner) compareIter(cm map[string]map[string]int, g int, chs []string
 			}
 			return &vfViol{Kind: "read", Sig: "iterator " + kind, Step: r.step,
 				What: fmt.Sprintf("iterator opened on node %d over %v, abstract range %s, mode %d (%s): channel %s (leaseholder %d) %s",
-					g, chs, note, mode, map[int]string{0: "SeekFirst+Next", 1: "SeekLast+Prev"}[mode], ch, r.leaseOf(ch), kind),
+					g, chs, note, mode, map[int]string{0: "SeekFirst+Next", 1: "SeekLast+Prev", 2: "SetBounds+SeekFirst+Next", 3: "SetBounds+SeekLast+Prev"}[mode], ch, r.leaseOf(ch), kind),
 				Exp: r.show(exp, ch), Act: r.show(act, ch)}, ""
 		}
 	}
@@ -850,9 +860,23 @@ func (r *vfRunner) battery(cm map[string]map[string]int, full bool) (*vfViol, st
 				return v, h
 			}
 		}
+		// SetBounds on the open iterator, all channels (gateway + peer routing through the
+		// broadcaster whenever the channels live on the gateway and elsewhere): the range
+		// that holds everything and one seeded range, both directions
+		for mode := 2; mode < 4; mode++ {
+			if v, h := r.compareIter(cm, g, r.stored, pts[0], pts[len(pts)-2], mode, "all data (set by SetBounds)"); v != nil || h != "" {
+				return v, h
+			}
+			ai := r.rnd(len(pts) - 1)
+			bi := ai + r.rnd(len(pts)-ai)
+			note := fmt.Sprintf("points %d..%d of %d (set by SetBounds)", ai, bi, len(pts))
+			if v, h := r.compareIter(cm, g, r.stored, pts[ai], pts[bi], mode, note); v != nil || h != "" {
+				return v, h
+			}
+		}
 		// every channel alone (peer-only or gateway-only routing), whole range
 		for _, ch := range r.stored {
-			if v, h := r.compareIter(cm, g, []string{ch}, telem.TimeStampMin, telem.TimeStampMax, r.rnd(2), "everything"); v != nil || h != "" {
+			if v, h := r.compareIter(cm, g, []string{ch}, pts[0], pts[len(pts)-2], r.rnd(4), "all data"); v != nil || h != "" {
 				return v, h
 			}
 		}
@@ -876,7 +900,7 @@ func (r *vfRunner) battery(cm map[string]map[string]int, full bool) (*vfViol, st
 					}
 				}
 				note := fmt.Sprintf("points %d..%d of %d", ai, bi, len(pts))
-				if v, h := r.compareIter(cm, g, chs, pts[ai], pts[bi], r.rnd(2), note); v != nil || h != "" {
+				if v, h := r.compareIter(cm, g, chs, pts[ai], pts[bi], r.rnd(4), note); v != nil || h != "" {
 					return v, h
 				}
 			}
@@ -1088,7 +1112,7 @@ func (r *vfRunner) exec(st vfStep) (string, *vfViol) {
 			return "ok", v
 		}
 		note := fmt.Sprintf("[%d,%d)", a.A, a.B)
-		for mode := 0; mode < 2; mode++ {
+		for mode := 0; mode < 4; mode++ {
 			v, h := r.compareIter(st.Cm, a.G, a.Keys, r.c.ts(a.A), r.c.ts(a.B), mode, note)
 			if h != "" {
 				return "hang", nil
@@ -1273,7 +1297,7 @@ func vfStatsMap(stats *vfStats, extra map[string]any) map[string]any {
 		"failed_opens": stats.failedOpens.Load(), "partial_frames": stats.partialFrames.Load(), "dataonly_writes": stats.dataOnly.Load(),
 		"free_channel_frames": stats.freeFrames.Load(), "remote_only_writes": stats.remoteOnly.Load(), "mixed_local_remote_writes": stats.mixedWrites.Load(),
 		"commit_end_not_max": stats.lastEndNotMax.Load(), "unauthorized": stats.unauthorized.Load(), "hangs": stats.hangs.Load(),
-		"settles": stats.settles.Load(), "traces": stats.traces.Load(), "tainted_scripts": stats.tainted.Load(), "setup_retries": stats.setupRetries.Load()}
+		"settles": stats.settles.Load(), "traces": stats.traces.Load(), "tainted_scripts": stats.tainted.Load(), "setup_retries": stats.setupRetries.Load(), "setbounds_reads": stats.setBounds.Load()}
 	for k, v := range extra {
 		m[k] = v
 	}
